@@ -84,7 +84,9 @@ def judge(chk, c, i, m, facts):
 def check_cases(chk, cases, replay=False):
     impls = enggen.run_impl(cases)
     # raising sinks: both, only the metrics sink, only the log sink (the healthy one must still get its record)
-    failing = [dict(c, sinks_fail=("both", "metrics", "log")[k % 3], warm=False) for k, c in enumerate(cases)]
+    # ... each as plain functions and as `async def`s failing while awaited
+    failing = [dict(c, sinks_fail=("both", "metrics", "log")[k % 3], sinks_async=bool((k // 3) % 2), warm=False)
+               for k, c in enumerate(cases)]
     impls_fail = enggen.run_impl(failing)
     models = enggen.run_model(cases, impls, "engine.eval")
     facts = enggen.run_model(cases, impls, "engine.facts")
@@ -114,7 +116,7 @@ def check_cases(chk, cases, replay=False):
         # every sink is called exactly once per evaluation whether or not it (or the other one) raises
         if len(ifail["payloads"]) != nf or len(incs_f) != nf:
             chk.violation("with a raising %s sink not exactly one audit record and one decision metric were emitted per "
-                          "evaluation" % cf["sinks_fail"], cf,
+                          "evaluation" % (cf["sinks_fail"] + (" (async)" if cf.get("sinks_async") else "")), cf,
                           impl={"payloads": len(ifail["payloads"]), "incs": len(incs_f), "evaluations": nf})
             continue
         badp = [(d, p) for d, p in zip(ifail["decisions"], ifail["payloads"]) if isinstance(d, dict) and
